@@ -1091,6 +1091,9 @@ func (w *responseWriter) WriteHeader(statusCode int) {
 	var err error
 	w.contentLen, err = httpExtractContentLength(w.Header())
 	if err != nil {
+		// The server's entity headers do not describe the error response.
+		w.Header().Del("Content-Length")
+		w.Header().Del("Content-Type")
 		w.reportError(err)
 		return
 	}
